@@ -111,7 +111,7 @@ def check(ctx, res) -> None:
 
     deser_sites, writer_funcs = [], []
     for f in idx.functions.values():
-        for c in calls_in(f.node):
+        for c in calls_in(common.inlined(idx, f)):
             d = dotted(c.func)
             if not d:
                 continue
@@ -151,13 +151,13 @@ def check(ctx, res) -> None:
         n_open += on_open
         # enclosing try handlers (innermost to outermost within the function)
         handlers: List[ast.ExceptHandler] = []
-        for t in walk_local(f.node):
+        for t in walk_local(common.inlined(idx, f)):
             if isinstance(t, ast.Try) and any(x is c for s in t.body for x in ast.walk(s)):
                 handlers.extend(t.handlers)
         missing = _covers(handlers, need, f.unit.modname, idx)
         # path expression of the file being read (open(...) in an enclosing with)
         read_paths = set()
-        for w in walk_local(f.node):
+        for w in walk_local(common.inlined(idx, f)):
             if isinstance(w, ast.With):
                 for it in w.items:
                     if isinstance(it.context_expr, ast.Call) and _open_mode(it.context_expr) is not None:
@@ -177,11 +177,11 @@ def check(ctx, res) -> None:
     # ---- R18.2 consumers of read_data tolerate None
     n_cons = 0
     for f in sorted(idx.functions.values(), key=lambda f: f.qualname):
-        for c in calls_in(f.node):
+        for c in calls_in(common.inlined(idx, f)):
             if not (isinstance(c.func, ast.Attribute) and c.func.attr == "read_data"):
                 continue
             n_cons += 1
-            cfg = CFG(f.node)
+            cfg = CFG(common.inlined(idx, f))
             holder = None
             for n in cfg.nodes:
                 if n.kind == "stmt" and isinstance(n.ast, ast.Assign) and n.ast.value is c:
@@ -244,8 +244,8 @@ def check(ctx, res) -> None:
     for f in idx.functions.values():
         if f.unit.modname in IPC_MODULES:
             continue
-        for c in calls_in(f.node):
-            m = _open_mode(c, f.node)
+        for c in calls_in(common.inlined(idx, f)):
+            m = _open_mode(c, common.inlined(idx, f))
             if m is not None and not any(ch in m for ch in "wax+"):
                 reads.append((f, c))
     res.analysed["open_for_read_sites"] = len(reads)
@@ -283,9 +283,9 @@ def _r184(ctx, res) -> None:
     consumers test for -- never an empty container."""
     idx = ctx.idx
     rd = idx.need_func("rope.base.project._DataFiles.read_data")
-    cfg = CFG(rd.node)
+    cfg = CFG(common.inlined(idx, rd))
     acc = None
-    for n in walk_local(rd.node):
+    for n in walk_local(common.inlined(idx, rd)):
         if isinstance(n, ast.Assign) and isinstance(n.value, ast.List) and not n.value.elts and isinstance(n.targets[0], ast.Name):
             acc = n.targets[0].id
     if acc is None:
